@@ -7,7 +7,7 @@ from .. import lib
 from ..lib import cz, cb, cl, ce, coq_bytes, coq_z
 
 IMPORTS = "Model.Types Model.Varint Model.Scalar Model.Sweep Model.Float Model.Object Model.Encode Model.Decode Model.Canon gen.Tables"
-EXTRA_TARGETS = ["Model/Canon.vo", "Model/Decode.vo"]
+EXTRA_TARGETS = ["Model/Canon.vo", "Model/Decode.vo", "Model/Sweep.vo"]
 
 TRUSTED = [
     "Coq 8.16.1 kernel and vm_compute (no native_compute); full .vo build via coq_makefile",
